@@ -63,6 +63,16 @@ def check(ctx):
     for n in ([65536, 262143, 262144, 262145, 262151, 300000] if ctx.thorough else [262144, 262149]):
         data = [rng.randrange(256) for _ in range(n)]
         lines.append(line("crc32", [rng.randrange(256) for _ in range(4)], data, rng.randrange(8), rng.choice([0, 4, n // 2 // 4 * 4, n // 4 * 4])))
+    # CRC-32 of messages of 2 GiB .. 4 GiB-1 (the length argument is a uint32_t: byte and word counts near 2^31 / 2^32), zero
+    # except for a head and a tail, in lazily committed address space; judged by the sparse form of the definition (Sparse32)
+    biglines = []
+    for n in ([2 ** 32 - 1, 2 ** 32 - 3, 2 ** 32 - 4, 2 ** 31 + 5] + ([2 ** 32 - 2, 2 ** 32 - 8, 2 ** 31, 2 ** 31 - 1, 3 * 2 ** 30 + 2] if ctx.thorough else [])):
+        head = [rng.randrange(1, 256) for _ in range(rng.choice([4, 8, 12]))]
+        tl = n % 4 if n % 4 else rng.choice([0, 4])
+        tail = [rng.randrange(1, 256) for _ in range(tl)]
+        # the zero run must be a multiple of four bytes: head and run fill whole words, the tail starts a word
+        assert (n - len(head) - len(tail)) % 4 == 0
+        biglines.append("CrcBig %s %d %s %s" % (fmt([rng.randrange(256) for _ in range(4)]), n, fmt(head), fmt(tail)))
     if ctx.thorough:
         for fn in FNS:
             for off in range(8):
@@ -77,7 +87,10 @@ def check(ctx):
         script.append(ln)
     ctx.samples.append({"calls": script[1:5]})
     t = ctx.drive(drv, script, "crc")
-    bad = ctx.judge("CrcTrace", [t], shards=16)
+    # one process per gigabyte message (tens of seconds of CPU each), next to the ordinary run
+    bigscript = [x for ln in biglines for x in ("R", ln)]
+    tb = ctx.drive(drv, bigscript, "crc_big", lines_per_proc=2, timeout=1500)
+    bad = ctx.judge("CrcTrace", [t, tb], shards=16)
     for b in bad: b["driver"] = "drv_crc"
     ctx.report(bad)
     ctx.assumptions += [
@@ -93,6 +106,10 @@ def replay(ctx, path):
     e = d["event"]
     if e.get("e") == "Fault":
         return core.replay_fault(ctx, d, drv, "CrcTrace", path)
+    if e.get("e") == "CrcBig":
+        t = ctx.drive(drv, ["R", "CrcBig %s %s %s %s" % (fmt(e["seed"]), e["len"], fmt(e["head"]), fmt(e["tail"]))], "replay", timeout=1500)
+        ctx.report(ctx.judge("CrcTrace", [t]))
+        return ctx.finish(rule="replay of " + path)
     t = ctx.drive(drv, ["R", line(e["fn"], e["seed"], e["data"], e["off"], e["cut"])], "replay")
     ctx.report(ctx.judge("CrcTrace", [t]))
     return ctx.finish(rule="replay of " + path)
